@@ -336,6 +336,24 @@ func (st *clientState) exec(op Op) (r OpResult) {
 		r.Err = errStr(mgr.AddPcapOverIPEndpoint(op.Addr))
 	case "DelEndpoint":
 		r.Err = errStr(mgr.DelPcapOverIPEndpoint(op.Addr))
+	case "PoipFeed":
+		// packets arriving over a PCAP-over-IP connection: the endpoint reader is
+		// replaced, the packet handler, capture writer and queued import are real
+		capt := st.s.capt
+		if len(op.Files) > 0 && op.Files[0] < len(capt.Files) {
+			pk := capt.Files[op.Files[0]]
+			n := op.V
+			if n > len(pk) {
+				n = len(pk)
+			}
+			var frames [][]byte
+			var ts []int64
+			for _, q := range pk[:n] {
+				frames = append(frames, q.Data)
+				ts = append(ts, q.TimeUS)
+			}
+			mgr.VerifFeedPcapOverIP(frames, ts)
+		}
 	case "Import":
 		r.Names = op.Convs // file names are passed in Convs by the controller
 		mgr.ImportPcaps(op.Convs)
